@@ -1,5 +1,6 @@
 import Ww.Model.Shutdown
 import Ww.Gen.Facts
+import Ww.Model.ShutdownSrc
 /-!
 # C19 — Shutdown drains in-flight requests and always terminates in time  (PARTIAL: the protocol arithmetic and ordering are proved; signal delivery,
 `http.Server.Shutdown` and the Go scheduler are the runtime, tied by timed runs of the real binary with a stated tolerance)
@@ -98,6 +99,18 @@ theorem source_shape :
     Ww.Gen.Facts.shutdownTimeoutExpr = "cfg.ShutdownGracefulPeriod - cfg.ShutdownWaitBeforePeriod" ∧
     (Ww.Gen.Facts.serverCalls.any fun (n, calls) => n == "Start" && calls.contains "signal.Notify" && calls.contains "time.Sleep" && calls.contains "server.Shutdown" &&
       calls.contains "log.Fatalf" && !calls.contains "server.Close") = true := by decide +kernel
+
+/-- **tie to the source, semantic (regenerated op list)**: interpreting the statements of the signal goroutine in SOURCE ORDER, for every setting of the two
+    periods, the listeners are closed exactly `wait-before` after the signal and the forced (fatal, non-zero) exit is armed for exactly `graceful` after the
+    signal - the two parameters of the protocol model above. (The clock of the deadline starts after the wait: sleeping after arming it, a timeout of the
+    full graceful period, draining under another context, `Close` instead of `Shutdown`, or no fatal exit on the deadline all make this fail.) -/
+theorem source_timing (c : ShutdownCfg) :
+    Ww.Model.ShutdownSrc.timing c Ww.Gen.Shutdown.shutdownOps = some (c.wait, deadline c) := by
+  simp [Ww.Model.ShutdownSrc.timing, Ww.Model.ShutdownSrc.runOps, Ww.Gen.Shutdown.shutdownOps, Ww.Model.ShutdownSrc.stepOp, Ww.Model.ShutdownSrc.evalE,
+    List.lookup, deadline, shutdownTimeout]
+
+/-- the termination signals Kubernetes and a terminal send are both handled -/
+theorem signals_registered : Ww.Gen.Shutdown.signals.contains "syscall.SIGTERM" = true ∧ Ww.Gen.Shutdown.signals.contains "syscall.SIGINT" = true := by decide
 
 -- non-vacuity
 example : exitOf ⟨300, 1200⟩ [⟨-200, 400⟩, ⟨100, 900⟩, ⟨350, 10⟩] = (1000, true) ∧ outcome ⟨300, 1200⟩ ⟨350, 10⟩ = .refused ∧
